@@ -116,3 +116,45 @@ pub fn contents(real: &str) -> ([u8; CAP], usize) {
         }
     }
 }
+
+// ------------------------------------------------------------------------------------------------
+/// Stub for `<core::str::pattern::CharSearcher as Searcher>::next_match` (the engine behind
+/// `str::split(char)`, `str::lines()`, `str::find(char)`): same contract - "the next occurrence
+/// of the needle's UTF-8 encoding in haystack[finger..finger_back], advancing finger past it" - as
+/// a plain scan. std's version goes through a word-at-a-time memchr and memcmp whose loops CBMC
+/// unwinds to the global bound at every call. The searcher's fields are private, so the stub reads
+/// them through a mirror struct with the same field list; `char_searcher_layout_witness` (a Kani
+/// harness compiled with every property that uses this stub) proves on a concrete searcher that
+/// the mirror reads back the right values in the very build being verified.
+pub struct CharSearcherMirror<'a> {
+    pub haystack: &'a str,
+    pub finger: usize,
+    pub finger_back: usize,
+    pub needle: char,
+    pub utf8_size: u8,
+    pub utf8_encoded: [u8; 4],
+}
+
+/// # Safety: `s` must point to a `core::str::pattern::CharSearcher` (see layout witness)
+pub unsafe fn char_searcher_next_match_impl(m: &mut CharSearcherMirror<'_>) -> Option<(usize, usize)> {
+    let b = m.haystack.as_bytes();
+    let k = m.utf8_size as usize;
+    let mut i = m.finger;
+    while i + k <= m.finger_back && i + k <= b.len() {
+        let mut eq = true;
+        let mut j = 0;
+        while j < k {
+            if b[i + j] != m.utf8_encoded[j] {
+                eq = false;
+            }
+            j += 1;
+        }
+        if eq {
+            m.finger = i + k;
+            return Some((i, i + k));
+        }
+        i += 1;
+    }
+    m.finger = m.finger_back;
+    None
+}
